@@ -72,6 +72,23 @@ theorem witness_template_unterminated :
     parseTargetPath t = .ok ⟨.event, [mkField "a{{b".toList]⟩ := by
   decide
 
+/-- `\\}}` is rewritten to `}}` by `template()` even when the backslash is itself the second half of
+    an escaped backslash: `."\\\\}}"` denotes `}}` in VRL source and `\\}}` for the string parser. -/
+theorem witness_template_close_escape :
+    let t := ['.', '"', '\\', '\\', '}', '}', '"']
+    hasTemplate t = true ∧
+    vrlPath t = .path ⟨.event, [mkField ['}', '}']]⟩ ∧
+    parseTargetPath t = .ok ⟨.event, [mkField ['\\', '}', '}']]⟩ := by
+  decide
+
+/-- non-vacuity of `agree_partial`: a text with two quoted fields, escapes and a negative index
+    that both sides accept and that has no template marker. -/
+example : let t := ".a.\"b \\\"c\\\\\"[-1]".toList
+    hasTemplate t = false ∧
+    vrlPath t = .path ⟨.event, [mkField ['a'], mkField "b \"c\\".toList, .index (-1)]⟩ ∧
+    parseTargetPath t = .ok ⟨.event, [mkField ['a'], mkField "b \"c\\".toList, .index (-1)]⟩ := by
+  decide
+
 /-- non-vacuity of `roundtrip_partial`: a three-segment path with a field that needs quoting and
     escaping and a negative index satisfies the hypotheses, for each kind. -/
 example : let p : CPath := [.field ['a'], .field ['b', '"', ' ', '\\'], .index (-1)]
